@@ -99,7 +99,7 @@ func (e wsEnv) sexp() sexp.Node {
 		}
 		fr = sexp.T("frame", sexp.Str(e.Type), sexp.Str(e.ID), p)
 	}
-	return sexp.T("ws", sexp.Sym(e.Proto), sexp.Bool(!e.PreInit), fr)
+	return sexp.T("ws", sexp.Sym(e.Proto), sexp.Bool(!e.PreInit), fr, sexp.Str(e.Raw))
 }
 
 func startType(proto string) string {
